@@ -65,3 +65,9 @@ ENTRIES += [
         ('wpull/url.py', "def uppercase_percent_encoding(text):", "_ESCAPE_PATTERN = re.compile(r'%[0-9a-fA-F]{2}')\n\n\ndef uppercase_percent_encoding(text):"),
         ('wpull/url.py', "    return re.sub(\n        r'%[a-fA-F0-9][a-fA-F0-9]',\n        lambda match", "    return _ESCAPE_PATTERN.sub(\n        lambda match")]},
 ]
+
+ENTRIES += [
+    B('regress-probe-three-characters', "        if PRINTABLE_ASCII.encode(encoding) != PRINTABLE_ASCII.encode('ascii'):", "        if 'a+/'.encode(encoding) != b'a+/':", 'C10-D1'),
+    B('probe-without-tilde', "PRINTABLE_ASCII = ''.join(chr(i) for i in range(0x20, 0x7f))", "PRINTABLE_ASCII = ''.join(chr(i) for i in range(0x20, 0x7e))", 'C10-D1'),
+    N('probe-literal', "PRINTABLE_ASCII = ''.join(chr(i) for i in range(0x20, 0x7f))", "PRINTABLE_ASCII = ' !\"#$%&\\'()*+,-./0123456789:;<=>?@ABCDEFGHIJKLMNOPQRSTUVWXYZ[\\\\]^_`abcdefghijklmnopqrstuvwxyz{|}~'"),
+]
